@@ -200,6 +200,16 @@ def run(ctx):
                     if filt:
                         ctx.ob('R19.1', '%s: presence of url / connection is tested as given' % tag, False, ctx.where(b, t_.line),
                                'the tested option passes through %s first: a value that is present can be treated as absent (or vice versa)' % filt, construct='%s:presence-altered' % tag)
+        # .. and presence is not replaced by emptiness of the contents: `urls.as_deref().unwrap_or_default().is_empty()` treats
+        # `Some(vec![])` as "not named" (the slice view of an Option itself - `Option::as_slice` - is exact)
+        for blk in b.blocks:
+            t_ = blk.term
+            if t_.kind == 'switch' and not blk.cleanup and t_.j.get('dty') == 'bool' and t_.discr.kind != 'const':
+                ds_ = sources(an, t_.discr, deep=True)
+                if any(x[0] == 'field' and x[1] in (fuq, fcq) for x in ds_) and any(x[0] == 'call' and x[1].split('::')[-1] in ('is_empty', 'len') for x in ds_) and \
+                        not any(x[0] == 'call' and x[1].endswith('Option::as_slice') for x in ds_):
+                    ctx.ob('R19.1', '%s: presence of url / connection is tested as given' % tag, False, ctx.where(b, t_.line),
+                           'the decision looks at the emptiness of the contents, not at the presence of the option: `Some(empty)` counts as not named', construct='%s:presence-by-emptiness' % tag)
         def make_leaf(vu, vc):
             def leaf(op, origins):
                 fl = {x[1] for x in origins if x[0] == 'field' and x[1].startswith(cfg + '.')}
@@ -260,6 +270,18 @@ def run(ctx):
                     ok = ok and fc in flds and fu not in flds and not defaults
                     what = 'only %s given -> exactly that source' % fc
                 ctx.ob('R19.1', '%s: %s' % (tag, what), ok, ctx.where(b), 'sources %s defaults=%s' % (sorted(flds), defaults), construct='%s:row:%s:%s' % (tag, vu, vc), sites=sorted(flds))
+                if mk and (vu == 'Some' or vc == 'Some'):
+                    # exactly the named servers: nothing on the way from the list to the constructor may drop an element
+                    # (`flat_map` / `filter_map` / `flatten` over the parse results swallow the malformed ones)
+                    LOSSY = ('flat_map', 'filter_map', 'filter', 'flatten', 'ok', 'skip', 'take', 'step_by', 'dedup', 'skip_while', 'take_while', 'find', 'nth', 'last', 'unwrap_or_default')
+                    steps_ = set()
+                    for a_ in mk[0].term.args[:1]:
+                        if a_.kind != 'const':
+                            steps_ |= calls_on_the_way(lan, Operand({'c': {'l': a_.place.local, 'pr': [], 'own': []}}), prog=prog)
+                    lossy = sorted({x[1] for x in steps_ if x[0] == 'call' and x[1].split('::')[-1] in LOSSY and ('Iterator' in x[1] or 'iter::' in x[1] or 'Result' in x[1] or 'Option' in x[1])})
+                    ctx.ob('R19.1', '%s: every named server reaches the manager (none is dropped on the way)' % tag, not lossy, ctx.where(b, mk[0].term.line),
+                           'the list passes through %s: an entry that fails to parse is silently left out instead of yielding a configuration error' % lossy if lossy else '',
+                           construct='%s:row-lossy:%s:%s' % (tag, vu, vc))
         # sibling agreement: the server used when neither is named is the one `Config::default()` of this flavour names
         dflt = prog.bodies.get('<%s as std::default::Default>::default' % cfg)
         if dflt is None:
